@@ -5,6 +5,7 @@ import (
 	"encoding/json"
 	"fmt"
 	"math/big"
+	"os"
 	"time"
 
 	abci "github.com/tendermint/tendermint/abci/types"
@@ -135,6 +136,9 @@ func NewNode(cfg NodeConfig) *Node {
 	}
 	if cfg.Logger == nil {
 		cfg.Logger = log.NewNopLogger()
+		if os.Getenv("VERIF_NODE_LOG") != "" {
+			cfg.Logger = log.NewTMLogger(log.NewSyncWriter(os.Stdout))
+		}
 	}
 	encCfg := encoding.MakeConfig(app.ModuleBasics)
 	tp := app.NewTeleport(cfg.Logger, dbm.NewMemDB(), nil, true, map[int64]bool{}, app.DefaultNodeHome, 0, encCfg, simapp.EmptyAppOptions{})
